@@ -399,7 +399,7 @@ class Tt3EmuSim(SimBase):
                 return True
 
         self.emu.add_service(0x0009, ndef_read, ndef_write)
-        self.emu.add_service(0x000B, ndef_read, lambda: False)
+        self.emu.add_service(0x000B, ndef_read, None)
 
     def is_write(self, cmd):
         return len(cmd) > 1 and cmd[1] == 0x08
